@@ -211,14 +211,20 @@ class RecordingFilter:
         return ("reading", key)
 
 
-def run_py_history(hist, max_dt):
+def run_py_history(hist, max_dt, interloper=False):
     from formak import runtime
 
     rec = RecordingFilter(max_dt, 1 if hist["ctl"] else 0)
     mf = runtime.ManagedFilter(rec, hist["t0"], 0, "cov")
     control = "ctl" if hist["ctl"] else None
     ev = rec.events
+    other = None
+    if interloper:
+        # a second, independent managed filter is ticked between the ticks of the one under test
+        other = runtime.ManagedFilter(RecordingFilter(max_dt * 0.5 + 0.01, 0), hist["t0"] + 3.7, 0, "cov2")
     for i, t in enumerate(hist["ticks"]):
+        if other is not None:
+            other.tick(hist["t0"] + 3.7 + (-1) ** i * 0.23 * (i + 1), readings=[runtime.StampedReading(hist["t0"] + 1.1 * i, 9)])
         ev.append(("t", i))
         if t["readings"] is None:
             r = mf.tick(t["out"], control=control)
